@@ -495,8 +495,8 @@ def gen_params(rng, cmd, inputs, style="valid"):
             if rng.random() < 0.5:
                 p["EndVal"] = rand_num(rng)
     elif cmd in ("NormalizeCat", "CvtToFuzzyCat"):
-        k = rng.randrange(0, 5)
-        raws = distinct_nums(rng, k, [-3, -2, -1, 0, 1, 2, 3, 4, 5, 0.5, 1.0, 2.0])
+        k = rng.randrange(0, 5) if rng.random() < 0.9 else rng.randrange(9, 12)        # sometimes a long legend
+        raws = distinct_nums(rng, k, [-3, -2, -1, 0, 1, 2, 3, 4, 5, 0.5, 1.0, 2.0, 6, 7, 8, 9, -4, 1.5, 2.5])
         if wild and k >= 1 and rng.random() < 0.2:
             raws.append(raws[0])
         vals = [rng.choice(VALUE_POOL) for _ in raws]
@@ -506,7 +506,7 @@ def gen_params(rng, cmd, inputs, style="valid"):
         p["NormalValues" if cmd == "NormalizeCat" else "FuzzyValues"] = vals
         p["DefaultNormalValue" if cmd == "NormalizeCat" else "DefaultFuzzyValue"] = rng.choice(VALUE_POOL)
     elif cmd in ("NormalizeCurve", "CvtToFuzzyCurve"):
-        k = rng.randrange(1, 6) if not wild else rng.randrange(0, 6)
+        k = (rng.randrange(1, 6) if not wild else rng.randrange(0, 6)) if rng.random() < 0.9 else rng.randrange(9, 13)     # sometimes many control points
         raws = distinct_nums(rng, k, CURVE_POOL)
         if wild and k >= 1 and rng.random() < 0.2:
             raws.append(raws[0])
